@@ -235,7 +235,7 @@ def asan_signature(text):
     for fm in re.finditer(r'^\s*#\d+ 0x[0-9a-f]+ in (\S+)', text, re.M):
         fn = fm.group(1)
         if 'bugstalker' in fn or 'bsmon' in fn:
-            frame = re.sub(r'::h[0-9a-f]{16}$', '', fn)
+            frame = re.sub(r'::h[0-9a-f]{16}$', '', fn).split('::<')[0].strip('<>')
             break
     return kind, frame
 
@@ -493,9 +493,9 @@ def main(tier):
             'distinct = distinct batches')
     V = Verdict('C08', tier, rule)
     V.minima = {'parser_inputs': 20000, 'live_queries': 1000, 'dap_garbage_messages': 16, 'canaries': 20, 'cast_queries': 100} if tier == 'quick' else \
-        {'parser_inputs': 2000000, 'live_queries': 50000, 'dap_garbage_messages': 200, 'canaries': 500, 'cast_queries': 5000}
+        {'parser_inputs': 500000, 'live_queries': 30000, 'dap_garbage_messages': 60, 'canaries': 200, 'cast_queries': 4000}
     V.assumptions = ['a crash is keyed by its panic location; a hang counts only if it reproduces on a fresh worker; a watchdog expiry otherwise is inconclusive']
-    np_, nl = (15, 8) if tier == 'quick' else (1000, 350)
+    np_, nl = (15, 8) if tier == 'quick' else (600, 250)
     for res in common.safe_map(parser_case, [(i, 1000, tier) for i in range(np_)], procs=8):
         V.merge(res)
     # compile once
@@ -508,8 +508,8 @@ def main(tier):
     # nor pass one of the bounds probes)
     if common.asan_wanted(tier):
         if common.asan_ready():
-            na = 6 if tier == 'quick' else 120
-            V.minima['asan_live_queries'] = 500 if tier == 'quick' else 15000
+            na = 6 if tier == 'quick' else 80
+            V.minima['asan_live_queries'] = 500 if tier == 'quick' else 8000
             for res in common.safe_map(live_case, [(i, 160, tier, True) for i in range(na)], procs=8):
                 V.merge(res)
         else:
